@@ -291,6 +291,18 @@ def run_real(case: Dict[str, Any]) -> Dict[str, Any]:
         p.logger.handlers.clear()
         p.logger.addHandler(logging.NullHandler())
         p.logger.setLevel(logging.CRITICAL + 10)
+        # every second case: the Parser object has failed on another file before (parse() -> clear()); nothing of that
+        # may change what it finds in this one
+        reused = (len(repr(case)) % 2 == 0)
+        layout["parser_reused"] = reused
+        if reused:
+            bad = base / "zz_poison.yaml"
+            bad.write_text("message_defs:\n  ZZP_A:\n    id: 4001\n    fields: null\n  ZZP_B:\n    id: 4001\n    fields: null\n")
+            try:
+                p.parse(bad)
+            except BaseException as e:  # noqa: BLE001 — intended
+                if isinstance(e, (KeyboardInterrupt, SystemExit)):
+                    raise
         try:
             p.parse(root)
         except BaseException as e:  # noqa: BLE001 — every exception is an observation
